@@ -31,6 +31,7 @@ def reps(lo, hi):
 
 def run(prog, chk):
     fanout_tables(prog, chk)
+    config_request_histories(prog, chk)
     from ksirules import recycle
     chk.rule("C15.recycle", "a recycled HA request object starts with a zero response count and cleared flags", floor=6)
     recycle.check(prog, chk, "C15.recycle", ["KSI_HighAvailabilityRequest_new"])
@@ -258,3 +259,104 @@ def fanout_tables(prog, chk):
         chk.ob("C15.complete", "error-response[request %s,%d outstanding]" % (SN[state], count), ok,
                "expected %s; source: outstanding %s, state stores %s, error stores %s, queued %d, notices %s, status %s"
                % (want, cnt, [SN.get(s, s) for s in st], errs, len(app), notice, q.ret), loc=fe.loc(), fn=fe)
+
+
+def config_request_histories(prog, chk):
+    """A request that carries only a configuration request, forwarded to 2 or 3 endpoints: every order of (configuration received /
+    endpoint failed) is played through the two handlers that see these events - handleConfigResponse and handleErrorResponse - the state
+    one handler leaves (request state, recorded error, outstanding count) being the input of the next.  The request is completed exactly
+    once: by the first configuration, or, when every endpoint failed, by the last failure; all other failures surface as notices."""
+    import itertools
+    from ksirules.interp import TOP, Interp, Ptr, succeed_model
+    from ksirules.model import AnalysisBroken, lvalue_key, strip
+    chk.rule("C15.confreq", "configuration-only request: completed exactly once over every order of configuration / failure events (handler histories)", floor=36)
+    K = prog.const
+    WAIT, ERRS, PUSH = K("KSI_ASYNC_STATE_WAITING_FOR_RESPONSE"), K("KSI_ASYNC_STATE_ERROR"), K("KSI_ASYNC_STATE_PUSH_CONFIG_RECEIVED")
+    fc = prog.fn("handleConfigResponse", "net_ha.c")
+    fe = prog.fn("handleErrorResponse", "net_ha.c")
+
+    def step(fn, ev, k, H, count, changes=1):
+        pn = [p["n"] for p in fn.params]
+        inputs = {pn[0]: Ptr("has"), "has->ctx": Ptr("ctx"), "has->respQueue": Ptr("RQ"), "has->confConsolidateCallback": 0, "has->consolidatedConfig": Ptr("CONS"),
+                  "HAREQ->expectedRespCount": count, "HAREQ->asyncHandle": Ptr("H"), "HAREQ->hasReq": 0,
+                  "H->state": H["state"], "H->err": H["err"], "H->errMsg": 0, "H->errExt": 0, "H->parentId": H["origin"], "H->respCtx": 0,
+                  "R->err": 0x400 + k if ev == "N" else 0, "R->errMsg": 0, "R->errExt": 0, "R->parentId": 20 + k, "R->respCtx": Ptr("PUSHED%d" % k),
+                  "R->state": ERRS if ev == "N" else PUSH}
+        if fn is fc:
+            inputs.update({pn[1]: Ptr("svc%d" % k), pn[2]: Ptr("R"), pn[3]: 0})
+        else:
+            inputs.update({pn[1]: Ptr("R")})
+        notices = []
+
+        def getctx(I, p, node, args):
+            I.write(p, lvalue_key(strip(node["a"][1])["e"], I.fn) if strip(node["a"][1]).get("k") == "un" else "haRequest", Ptr("HAREQ"))
+            return 0
+
+        def getstate(I, p, node, args):
+            I.write(p, lvalue_key(strip(node["a"][1])["e"], I.fn), I.read(p, "%s->state" % args[0].what) if isinstance(args[0], Ptr) else TOP)
+            return 0
+
+        def notice_(I, p, node, args):
+            if args[0] == 0 or args[1] == 0 or args[3] == 0:
+                return 0x100
+            notices.append(tuple(args[2:4]))
+            return 0
+
+        def consolidate(I, p, node, args):
+            out = strip(node["a"][2])
+            if isinstance(out, dict) and out.get("k") == "un":
+                I.write(p, lvalue_key(out["e"], I.fn), changes)
+            return 0
+
+        def getconfig(I, p, node, args):
+            I.write(p, lvalue_key(strip(node["a"][1])["e"], I.fn), Ptr("PUSHED%d" % k))
+            return 0
+
+        def model(I, p, node, name, args, callee_val):
+            if name is None:
+                return TOP      # respCtx_free(respCtx): releases what the endpoint's handle held
+            return sm(I, p, node, name, args, callee_val)
+        ov = {"KSI_AsyncHandle_getRequestCtx": getctx, "KSI_AsyncHandle_getState": getstate, "KSI_AsyncHandle_ref": lambda I, p, n, a: a[0],
+              "KSI_Utf8String_ref": lambda I, p, n, a: a[0], "KSI_Config_ref": lambda I, p, n, a: a[0], "KSI_HighAvailabilityService_reportErrorNotice": notice_,
+              "KSI_HighAvailabilityService_consolidateConfig": consolidate, "KSI_AsyncHandle_getConfig": getconfig, "KSI_Utf8String_free": lambda I, p, n, a: TOP}
+        sm = succeed_model(prog, ov)
+        I = Interp(fn, inputs=inputs, call_model=model, on_unknown="stop", prog=prog)
+        paths = I.run()
+        chk.paths += len(paths)
+        if len(paths) != 1 or paths[0].undetermined:
+            raise AnalysisBroken("%s: evaluation not determined for event %s on request %s: %s" % (fn.name, ev, H, [q.undetermined[:1] for q in paths]))
+        q = paths[0]
+
+        def last(key, dflt):
+            st = q.stores(key)
+            return st[-1][2] if st else dflt
+        H2 = {"state": last("H->state", H["state"]), "err": last("H->err", H["err"]), "origin": last("H->parentId", H["origin"])}
+        queued = [c[2][1].what for c in q.calls("KSI_AsyncHandleList_append") if c[2][0] == Ptr("RQ") and isinstance(c[2][1], Ptr)]
+        return H2, last("HAREQ->expectedRespCount", count), queued, notices, q.ret
+
+    for n in (2, 3):
+        # K = a configuration that changes the consolidated values, k = one that leaves them as they are, N = the endpoint failed
+        for script in itertools.product("KkN", repeat=n):
+            H, count = {"state": WAIT, "err": 0, "origin": 0}, n
+            done, notes, log, bad = 0, 0, [], None
+            seen_k = False
+            for k, ev in enumerate(script):
+                H, count, queued, notices, ret = step(fc if ev in "Kk" else fe, ev, k, H, count, changes=1 if ev == "K" else 0)
+                log.append("%s: queued %s, notices %s, request state %s" % (ev, queued, ["origin %s error %s" % (o, hex(e) if isinstance(e, int) else e) for o, e in notices], H["state"]))
+                if ret != 0:
+                    bad = "event %d (%s): handler status %s" % (k, ev, ret)
+                    break
+                notes += len(notices)
+                if ev in "Kk":
+                    if not seen_k:
+                        done += queued.count("R")
+                    seen_k = True
+                    done += queued.count("H")
+                else:
+                    done += len(queued)
+            s = "".join(script)
+            want_notes = s.count("N") if ("K" in s or "k" in s) else s.count("N") - 1
+            ok = bad is None and done == 1 and notes == want_notes and count == 0
+            chk.ob("C15.confreq", "configuration request[%d endpoints, events %s]" % (n, s), ok,
+                   "expected exactly one completion and %d error notice(s); source: %d completion(s), %d notice(s), outstanding at the end %s%s; %s"
+                   % (want_notes, done, notes, count, "; " + bad if bad else "", " | ".join(log)), loc=fc.loc(), fn=fc)
